@@ -398,7 +398,9 @@ pub fn check(s: &Scenario) -> CheckResult {
                 ensure!(*t == traces[ci][si], "C19/ill/numbers-differ", "[{}] scrambling the units changed the numbers: {:?} vs {:?} for {:?}", CFGS[ci].name, t, traces[ci][si], step);
                 if let Step::Quantity(prog) = step {
                     let plain = plain_quantity(prog);
-                    ensure!(*t == plain, "C19/ill/not-plain-f32", "[{}] result {:?} differs from plain f32/i64 arithmetic {:?} for {:?}", CFGS[ci].name, t, plain, prog);
+                    // (the leading tokens are the named-constant comparisons, which are not part of the program)
+                    let t: Vec<String> = t.iter().filter(|x| !x.starts_with("k-")).cloned().collect();
+                    ensure!(t == plain, "C19/ill/not-plain-f32", "[{}] result {:?} differs from plain f32/i64 arithmetic {:?} for {:?}", CFGS[ci].name, t, plain, prog);
                     ill_additive |= prog.iter().any(|t| matches!(t, QTok::Add | QTok::Sub | QTok::AddAssign | QTok::SubAssign | QTok::Lt | QTok::Le | QTok::Gt | QTok::Ge));
                 }
             }
